@@ -608,8 +608,15 @@ pub fn run(ctx: &mut Ctx) {
         }
         // a malformed option is not the end of the walk: what follows it is still listed (layout, MSS, quirks) and `bad` comes last
         emit4(ctx, &ip, &Tcp { opts: vec![3, 2, 2, 4, 5, 0xb4, 3, 3, 15, 8, 10, 0, 0, 0, 0, 0, 0, 0, 5], ..Default::default() });
-        // open finding KF-C03-malformed-repeats-quirk: `03 02`, then two window-scale options with shift 15: exws twice
+        // repaired finding KF-C03-malformed-repeats-quirk: `03 02`, then two window-scale options with shift 15: exws once;
+        // likewise a second timestamp option (ts1-, ts2+) and a second EOL with a non-zero byte after it (opt+)
         emit4(ctx, &ip, &Tcp { opts: vec![3, 2, 3, 3, 15, 3, 3, 15], ..Default::default() });
+        emit4(ctx, &ip, &Tcp { opts: vec![3, 2, 8, 10, 0, 0, 0, 0, 0, 0, 0, 5, 8, 10, 0, 0, 0, 0, 0, 0, 0, 6, 1, 1], ..Default::default() });
+        emit4(ctx, &ip, &Tcp { opts: vec![3, 2, 0, 1, 0, 1, 1, 1], ..Default::default() });
+        // the same repetitions in well-formed areas (unspecified / options-after-EOL class): compared against the model
+        emit4(ctx, &ip, &Tcp { opts: vec![3, 3, 15, 3, 3, 15, 1, 1], ..Default::default() });
+        emit4(ctx, &ip, &Tcp { opts: vec![8, 10, 0, 0, 0, 0, 0, 0, 0, 5, 8, 10, 0, 0, 0, 0, 0, 0, 0, 6], ..Default::default() });
+        emit4(ctx, &ip, &Tcp { opts: vec![2, 4, 5, 0xb4, 0, 1, 0, 1], ..Default::default() });
         // the option area clipped by the buffer (IP total length ends inside the options): what is there is judged
         {
             let full = v4_bytes(&ip, &tcp_bytes(&Tcp { opts: vec![2, 4, 5, 0xb4, 8, 10, 0, 0, 0, 1, 0, 0, 0, 0, 1, 1], ..Default::default() }));
